@@ -401,7 +401,17 @@ func run(env *simrt.Env, sci interface{}) {
 			}
 			ri := int(c.remoteIndex())
 			probe := []byte{0xAA, byte(c.idx), 1, 2, 3, 4, 5, 6}
-			if _, err := c.conn.Write(probe); err != nil {
+			if c.idx%2 == 1 {
+				// longer than a typical MTU: whatever the connection does with the part beyond it
+				probe = append(probe, harn.Bytes(uint64(c.idx)+5, 1800)...)
+			}
+			// the caller reuses its buffer as soon as Write has returned
+			wbuf := append([]byte(nil), probe...)
+			_, err := c.conn.Write(wbuf)
+			for i := range wbuf {
+				wbuf[i] = 0xEE
+			}
+			if err != nil {
 				env.Fail("C12/accepted-conn-cannot-send", "connection #%d (accepted, not closed) failed to Write after the listener was closed: %v", c.idx, err)
 				return
 			}
